@@ -9,7 +9,8 @@ PROP = {'streams': [('c15', 1500, 60000)],
          'loader calls <= budget; model lines for the exact loader (budgets <= 6, first deciding, >= n); non-trivial = at least one loading round '
          'needed; distinct by policies + request + store',
  'theorems': ['budget_monotone', 'budget_monotone_le', 'batched_decision_sound', 'enough_budget_full', 'enough_budget_sound', 'enough_budget',
-              'batched_decision_sound_partial', 'loop_inv', 'storeLoader_complete', 'storeLoader_faithful'],
+              'batched_decision_sound_partial', 'loop_inv', 'storeLoader_complete', 'storeLoader_faithful',
+              'batched_decision_sound_valid', 'enough_budget_full_valid', 'batched_total_valid'],
  'assumptions': ['the typed conditions (output of the Rust typechecker) are an input of the model, as for C14',
                  'schema validation of loaded entities is not modelled (stores are conformant)',
                  'batched_decision_sound has NO hypothesis about the loop states (SoundStates is discharged from C14 interpret_typeSafe and the '
@@ -21,6 +22,11 @@ PROP = {'streams': [('c15', 1500, 60000)],
                  'Universe U q es tps (U holds the ids of the request incl. context, of the typed conditions and of the attribute / tag values '
                  'of the store - a checkable condition on the input), StepOk and Complete for the loader, TypedSafe / TypedAgrees / CondsBool, '
                  'and that policy_residual_map succeeds; the bound is |U| (enough_budget_sound is the version with boundedness as hypothesis)',
+                 'batched_decision_sound_valid / enough_budget_full_valid / batched_total_valid replace TypedSafe, TypedAgrees, CondsBool and '
+                 '"policy_residual_map succeeds" by validation-level hypotheses (SchemaWF2; ValidTyped: static policies of the strict fragment '
+                 'accepted by checkPolicy .strict in every environment, typed condition = erasure of Level.annotate for the environment of the '
+                 'request; Conformant request / store incl. ActionsPresent) - derived from C03 strict soundness in Lemmas/TpeValid*.lean; that '
+                 'the typed expression Rust hands over is the erasure of Level.annotate is covered by the differential runs only',
                  'loaders that return an already loaded entity again hit the Duplicate error (known finding); theorems about them need StepOk']}
 
 TEXT = ('Lean theorems over the mirror of is_authorized_batched (empty partial store, all_literal_uids, load unseen, missing => empty entity, '
@@ -32,10 +38,12 @@ TEXT = ('Lean theorems over the mirror of is_authorized_batched (empty partial s
  '(every budget above |U| yields the ordinary decision; measure = unseen ids of the universe; progress proved: a Partial residual under a '
  'concrete request and fully known entities mentions an unloaded id; Bool-typedness proved; boundedness proved: ids of an interpreted '
  'residual are ids of the input, the request or loaded values; U = ids of request, policies and store values), the older enough_budget / batched_decision_sound_partial under abstract '
- 'invariants; tied to the code by a differential run for every small budget, the first deciding and the top '
+ 'invariants; batched_decision_sound_valid / enough_budget_full_valid / batched_total_valid: the same from validation-level hypotheses only '
+ '(strictly valid static policies per the C03 model with the typechecker typed AST as typed conditions, conformant request and store: '
+ 'TypedSafe / TypedAgrees / CondsBool and the success of policy_residual_map are derived from C03, Lemmas/TpeValid*.lean); tied to the code by a differential run for every small budget, the first deciding and the top '
  'budgets, plus the four clauses of the statement evaluated on the implementation for every budget 0..n+1 with exact and over-returning '
  'loaders and stores with missing entities.',
- 'proof over a hand-written model; soundness and the budget bound need only input hypotheses (type safety of the typed conditions from '
- 'validation, a faithful / complete loader whose rounds do not fail); '
+ 'proof over a hand-written model; soundness and the budget bound need only input hypotheses (type safety of the typed conditions - derived '
+ 'from validation (C03) in the *_valid theorems -, a faithful / complete loader whose rounds do not fail); '
  'correspondence sampled (harness/src/c15.rs); one genuine defect recorded (a loader that returns an already loaded entity again gets a '
  'duplicate-entity error instead of a decision)')
